@@ -6,7 +6,7 @@
    zix_dir_for_each and the descriptor accounting: second part, Properties_C15_links.v (file system FsLinkSpec.v).
    NOT in the proved part: permissions, zix_canonical_path (compared with realpath by the driver only). *)
 From Coq Require Import ZArith List Bool Lia.
-From Zix Require Import CopySpec CopyModel FsSpec FsModel FsProofs FsProofs2 FsProofs3.
+From Zix Require Import CopySpec CopyModel FsSpec FsModel FsProofs FsProofs2 FsProofs3 FsProofs4.
 Import ListNotations.
 Local Open Scope Z_scope.
 
@@ -120,6 +120,16 @@ Theorem file_equals_missing_false : forall (fa fb : fileT) page al1 al2 errno0 s
   fa = None \/ fb = None -> fst (file_equals false fa fb page al1 al2 errno0 script) = false.
 Proof. exact file_equals_missing. Qed.
 Print Assumptions file_equals_missing_false.
+
+(* open, fstat, read and close may fail at ANY call with ANY errno (every script without short reads), any page size,
+   any allocator answers: two files whose bytes differ are never reported equal.  (A failed read of the first file
+   leaves the loop with match still true; the pending errno, which zix_system_close_fds turns into a status, is what
+   makes the answer false.) *)
+Theorem file_equals_errors_never_true : forall ia a ib b page al1 al2 errno0 script,
+  (0 < page)%nat -> ia <> ib -> Forall no_short script -> a <> b ->
+  fst (file_equals false (Some (ia, a)) (Some (ib, b)) page al1 al2 errno0 script) = false.
+Proof. exact file_equals_errors_false. Qed.
+Print Assumptions file_equals_errors_never_true.
 
 (* the no-short-read hypothesis is necessary: a short read on one file makes equal files compare unequal *)
 Theorem file_equals_short_read_refuted :
